@@ -19,12 +19,24 @@ WITNESS_BIN = os.path.join(BUILD, "witness", "debug", "witness")
 
 
 def build_witness(log=None):
+    repo = os.environ.get("VERIF_REPO", "/repo")
     with kp.Lock("witness"):
-        lock = os.path.join(WITNESS_DIR, "Cargo.lock")
+        src = WITNESS_DIR
+        if repo != "/repo":
+            # checks run against another tree (seeded-change evaluation on a scratch worktree): build the witness against THAT
+            # tree from a copy of the witness sources whose path dependency is rewritten
+            src = os.path.join(BUILD, "witness_src")
+            shutil.rmtree(src, ignore_errors=True)
+            shutil.copytree(WITNESS_DIR, src, ignore=shutil.ignore_patterns("target", "Cargo.lock"))
+            with open(os.path.join(src, "Cargo.toml")) as f:
+                toml = f.read()
+            with open(os.path.join(src, "Cargo.toml"), "w") as f:
+                f.write(toml.replace('path = "/repo"', f'path = "{repo}"'))
+        lock = os.path.join(src, "Cargo.lock")
         if not os.path.exists(lock):
-            shutil.copyfile("/repo/Cargo.lock", lock)
+            shutil.copyfile(os.path.join(repo, "Cargo.lock"), lock)
         p = subprocess.run(["cargo", "build", "--offline", "--target-dir", os.path.join(BUILD, "witness")],
-                           cwd=WITNESS_DIR, env=kp.env_offline(), stdout=subprocess.PIPE, stderr=subprocess.STDOUT, text=True)
+                           cwd=src, env=kp.env_offline(), stdout=subprocess.PIPE, stderr=subprocess.STDOUT, text=True)
         if log:
             with open(log, "w") as f:
                 f.write(p.stdout)
